@@ -1,0 +1,57 @@
+/* Verification hooks:  compiled in only when MUSCLE_VERIF_HOOKS is defined (it never is in a normal build).
+ * A hook point calls a process-global function pointer that is NULL unless a test harness installs one,
+ * so that a harness can record events and inject delays at the windows between critical sections.
+ */
+#ifndef MuscleVerifHooks_h
+#define MuscleVerifHooks_h
+
+#ifdef MUSCLE_VERIF_HOOKS
+
+#include <stddef.h>
+
+namespace muscle {
+
+/** Signature of the hook-callback:  (site) is one of the MVH_* values below, (obj) identifies the object involved, (arg) is site-specific. */
+typedef void (*MuscleVerifHookFunc)(int site, const void * obj, long arg);
+
+/** Header-only holder for the global hook-callback pointer (must be set before any threads are started) */
+template<int N> struct MuscleVerifHookHolder {static MuscleVerifHookFunc _func;};
+template<int N> MuscleVerifHookFunc MuscleVerifHookHolder<N>::_func = NULL;
+
+enum {
+   MVH_REFCOUNT_HIT_ZERO = 1,          /* RefCount.h:  decrement returned true, before recycle/delete    (obj=item) */
+   MVH_POOL_RELEASE_AFTER_RESET,       /* ObjectPool.h:  after the object was reset to default, before the pool lock (obj=object) */
+   MVH_POOL_RELEASE_AFTER_UNLOCK,      /* ObjectPool.h:  after the pool lock was released, before the slab (if any) is deleted (obj=pool, arg=slab!=NULL) */
+   MVH_POOL_OBTAIN_AFTER_UNLOCK,       /* ObjectPool.h:  after the pool lock was released in ObtainObject() (obj=object) */
+   MVH_THREAD_SEND_AFTER_ENQUEUE = 10, /* Thread.cpp:  after enqueue+unlock, before the signal (obj=Thread, arg=whichQueue*2+sendNotification) */
+   MVH_THREAD_WAIT_AFTER_DRAIN,        /* Thread.cpp:  after the signal-bytes were drained, before the dequeue (obj=Thread) */
+   MVH_THREAD_WAIT_BEFORE_BLOCK,       /* Thread.cpp:  queue was found empty, before blocking (obj=Thread) */
+   MVH_THREAD_INTERNAL_ENTRY,          /* Thread.cpp:  internal thread started running (obj=Thread) */
+   MVH_THREAD_INTERNAL_EXIT,           /* Thread.cpp:  internal thread is about to exit (obj=Thread) */
+   MVH_POOL_BEFORE_HANDBACK = 20,      /* ThreadPool.cpp:  a pool thread finished a batch, before it takes the pool lock (obj=ThreadPool) */
+   MVH_POOL_AFTER_DISPATCH,            /* ThreadPool.cpp:  after Messages were handed to a pool thread (obj=ThreadPool) */
+   MVH_POOL_UNREGISTER_BEFORE_WAIT,    /* ThreadPool.cpp:  UnregisterClient() decided to wait, before it blocks (obj=ThreadPool) */
+   MVH_POOL_UNREGISTER_AFTER_WAIT,     /* ThreadPool.cpp:  UnregisterClient() woke up again (obj=ThreadPool) */
+   MVH_POOL_BEFORE_SHUTDOWN,           /* ThreadPool.cpp:  before pool threads are shut down (obj=ThreadPool) */
+   MVH_RW_READER_PARKED = 30,          /* ReaderWriterMutex.cpp:  events emitted while _stateMutex is held (obj=mutex, arg=unused) */
+   MVH_RW_READER_ADMITTED,
+   MVH_RW_READER_RELEASED,
+   MVH_RW_READER_TIMEDOUT,
+   MVH_RW_WRITER_PARKED,
+   MVH_RW_WRITER_ADMITTED,
+   MVH_RW_WRITER_RELEASED,
+   MVH_RW_WRITER_TIMEDOUT,
+   MVH_RW_AFTER_EARLY_UNLOCK = 40,     /* ReaderWriterMutex.cpp:  delay points (no lock held):  after _stateMutex was released early, before Wait() */
+   MVH_RW_AFTER_WAKE,                  /* after Wait() returned, before _stateMutex is re-locked */
+   MVH_RW_UPGRADE_AFTER_RELEASE        /* inside the read->write upgrade, after the read locks were released */
+};
+
+} // end namespace muscle
+
+# define MUSCLE_VERIF_POINT(site, obj, arg) do {::muscle::MuscleVerifHookFunc mvhf_ = ::muscle::MuscleVerifHookHolder<0>::_func; if (mvhf_) mvhf_((site), (const void *)(obj), (long)(arg));} while(0)
+
+#else
+# define MUSCLE_VERIF_POINT(site, obj, arg) do {} while(0)
+#endif
+
+#endif
